@@ -16,7 +16,7 @@ use rten::verif::{Operator, Value};
 use vcommon::{Rng, Trace, Value as J, json};
 
 use super::catalogue::{Case, Entry, G, catalogue};
-use super::{DT, In, Mat, Outcome, dist_q, exact_inputs, owned_value, run_in_place, run_normal};
+use super::{DT, In, Mat, Outcome, T, dist_q, exact_inputs, owned_value, run_in_place, run_normal};
 
 pub const OWNED_CLASSES: &[&str] = &["exact", "spare", "permuted", "gapped", "reserved"];
 
@@ -54,6 +54,96 @@ pub fn taken_sets(op: &dyn Operator, inputs: &[In]) -> Vec<Vec<usize>> {
     }
 }
 
+/// "1011": which input positions are connected.
+pub fn present_mask(inputs: &[In]) -> String {
+    inputs.iter().map(|i| if matches!(i, In::None) { '0' } else { '1' }).collect()
+}
+
+/// "nonfinite" when a float input holds an infinity or a NaN, else "finite".
+pub fn value_class(inputs: &[In]) -> &'static str {
+    let nf = |t: &T| t.dt == DT::F32 && t.vals.iter().any(|b| !f32::from_bits(*b as u32).is_finite());
+    let any = inputs.iter().any(|i| match i {
+        In::T(t) => nf(t),
+        In::Seq(_, items) => items.iter().any(nf),
+        In::None => false,
+    });
+    if any { "nonfinite" } else { "finite" }
+}
+
+/// Extreme float values every in-place capable float operator must treat the
+/// same way on both paths.  NaN is the canonical quiet NaN; the contract
+/// compares NaNs as "both NaN" (payload propagation is not part of C13).
+pub const EXTREME_F32: [u32; 12] = [
+    0x7f80_0000, // +inf
+    0xff80_0000, // -inf
+    0x7fc0_0000, // NaN
+    0x0000_0000, // +0
+    0x8000_0000, // -0
+    0x7f7f_ffff, // f32::MAX
+    0xff7f_ffff, // f32::MIN
+    0x0080_0000, // smallest normal
+    0x0000_0001, // smallest subnormal
+    0x8000_0123, // negative subnormal
+    0x3f80_0000, // 1
+    0xbf80_0000, // -1
+];
+
+/// Overwrite some elements of the float tensors with values of EXTREME_F32,
+/// rotating through the pool with `rot` so that successive cases cover it.
+/// The inputs an operator modifies in place always receive them; other float
+/// inputs one time in three.
+pub fn inject_extremes(inputs: &mut [In], designated: &[usize], commutative: bool, rot: usize, all_nonfinite: bool, rng: &mut Rng) {
+    let mut next = rot;
+    for (p, inp) in inputs.iter_mut().enumerate() {
+        let In::T(t) = inp else { continue };
+        if t.dt != DT::F32 || t.vals.is_empty() {
+            continue;
+        }
+        let target = designated.contains(&p) || commutative;
+        if !target && !rng.chance(1, 3) {
+            continue;
+        }
+        let n = t.vals.len().min(8);
+        let mut pos: Vec<usize> = (0..t.vals.len()).collect();
+        rng.shuffle(&mut pos);
+        for (j, &q) in pos.iter().take(n).enumerate() {
+            // with `all_nonfinite`, tensors of >= 4 elements get +inf, -inf and NaN for sure
+            t.vals[q] = if all_nonfinite && t.vals.len() >= 4 && j < 3 {
+                EXTREME_F32[j] as i32
+            } else {
+                next += 1;
+                EXTREME_F32[(next - 1) % EXTREME_F32.len()] as i32
+            };
+        }
+    }
+}
+
+/// Sub-patterns of connected inputs obtained by disconnecting inputs the
+/// operator may treat as optional: every subset of the connected positions
+/// other than position 0 and the in-place positions (all subsets when there
+/// are at most 4 such positions, otherwise singles, pairs and "all").
+/// Whether the operator accepts a pattern is found out by running it.
+pub fn omission_patterns(inputs: &[In], designated: &[usize]) -> Vec<Vec<usize>> {
+    let cand: Vec<usize> = (1..inputs.len())
+        .filter(|p| !matches!(inputs[*p], In::None) && !designated.contains(p))
+        .collect();
+    let mut out: Vec<Vec<usize>> = Vec::new();
+    if cand.len() <= 4 {
+        for m in 1u32..(1 << cand.len()) {
+            out.push(cand.iter().enumerate().filter(|(i, _)| m & (1 << i) != 0).map(|(_, p)| *p).collect());
+        }
+    } else {
+        for (i, a) in cand.iter().enumerate() {
+            out.push(vec![*a]);
+            for b in &cand[i + 1..] {
+                out.push(vec![*a, *b]);
+            }
+        }
+        out.push(cand.clone());
+    }
+    out
+}
+
 #[allow(clippy::too_many_arguments)]
 pub fn run_case(
     tr: &mut Trace,
@@ -72,6 +162,7 @@ pub fn run_case(
         "ev": "case", "prop": "C13", "id": id, "key": en.key, "op": op.name(), "dt": dt.name(),
         "cls": case.cls, "special": special, "commutative": op.is_commutative(),
         "in_place": designated, "n_out": en.n_out, "num": en.num, "exact": exact_inputs(inputs),
+        "present": present_mask(inputs), "vals": value_class(inputs),
         "inputs": inputs.iter().map(|i| i.json()).collect::<Vec<_>>(),
     }));
     tr.flush();
@@ -185,6 +276,7 @@ pub fn main() -> i32 {
     let only = vcommon::arg("--only");
     let all_classes = std::env::args().any(|a| a == "--all-classes");
     let big = std::env::args().any(|a| a == "--big");
+    let per_pattern = vcommon::arg_usize("--per-pattern", 6);
     let mut tr = Trace::create(&out);
     let mut rng = Rng::from_env();
     let cat = catalogue();
@@ -227,15 +319,50 @@ pub fn main() -> i32 {
         if en.nondet || (en.big && !big) {
             continue;
         }
+        let designated: Vec<usize> = op.in_place_inputs().iter().map(|i| i as usize).collect();
         for &dt in &en.dts {
+            // (present-pattern -> cases emitted) for the optional-input cross product
+            let mut seen: std::collections::HashMap<String, usize> = std::collections::HashMap::new();
             for k in 0..(if en.big { cases.min(2) } else { cases }) {
                 let special = k % 4 == 3;
-                let case = {
+                let mut case = {
                     let mut g = G { rng: &mut rng, dt, special, exact: en.num == 1 && k % 2 == 0 };
                     (en.gen_fn)(&mut g)
                 };
+                // every second case of a bit-exact float operator draws from the extreme value pool
+                if en.num == 0 && !en.big && k % 2 == 1 {
+                    inject_extremes(&mut case.inputs, &designated, op.is_commutative(), k / 2 * 5, k % 4 == 1, &mut rng);
+                }
                 id += 1;
+                *seen.entry(present_mask(&case.inputs)).or_insert(0) += 1;
                 run_case(&mut tr, id, en, &*op, dt, &case, special, &mut rng, all_classes);
+                if en.big {
+                    continue;
+                }
+                // cross the in-place path with every pattern of omitted optional inputs
+                // the operator accepts (accepted = Operator::run succeeds on it)
+                for omit in omission_patterns(&case.inputs, &designated) {
+                    let mut inputs2 = case.inputs.clone();
+                    for p in &omit {
+                        inputs2[*p] = In::None;
+                    }
+                    let mask = present_mask(&inputs2);
+                    if seen.get(&mask).copied().unwrap_or(0) >= per_pattern {
+                        continue;
+                    }
+                    let accepted = {
+                        let mats: Vec<Mat> = inputs2.iter().map(|i| Mat::new(i, None)).collect();
+                        let views: Vec<_> = mats.iter().map(|m| m.view()).collect();
+                        run_normal(&*op, &views, en.n_out).ok()
+                    };
+                    if !accepted {
+                        continue;
+                    }
+                    *seen.entry(mask).or_insert(0) += 1;
+                    let case2 = Case { inputs: inputs2, cls: format!("{},omitted", case.cls) };
+                    id += 1;
+                    run_case(&mut tr, id, en, &*op, dt, &case2, special, &mut rng, all_classes);
+                }
             }
         }
     }
